@@ -165,6 +165,9 @@ func checkC10(r *core.Run) {
 			r.Witness(cl, "", s, fmt.Sprintf("HTMLEscaped(%s)=%s: %s", core.Q(s), core.Q(out), what), map[string]string{"Input": s})
 		}
 	}
+	// hidden state between calls (runs first, sequentially)
+	pairLayer(r, strPairItems([]string{"", "a", "<", ">", "&", "'", "\"", "&amp;", "&#39;", "\x00", "\xff", "\xc2", "\ufdd0", "\U0001fffe", "\u00e9", "a<b", "<<", "''", "&&",
+		strings.Repeat("a", 255) + "&", strings.Repeat("a", 300), strings.Repeat("<", 64), strings.Repeat("\u00e9", 127) + "'", "\r\n", "\x7f", "\xed\xa0\x80"}, c10Judge))
 	// L-full: every byte string up to length 2 (quick) / 3 (thorough)
 	n := 2
 	if r.Thorough() {
